@@ -29,6 +29,8 @@ def gen_stream(r, text_only):
         out += b"\n" * r.randrange(1, 4)
     if r.random() < 0.15:                      # a very long line spanning many chunks
         out += bytes(r.choice(b"abcxyz") for _ in range(r.randrange(600, 1500))) + b"\n"
+    if r.random() < 0.04:                      # a line far longer than any buffer size one might assume
+        out += bytes(r.choice(b"0123456789abcdef") for _ in range(r.choice([16384, 20000, 40000]))) + b"\n"
     if r.random() < 0.3:                       # unterminated tail
         out += bytes(r.choice(b"tail") for _ in range(r.randrange(1, 40)))
     return bytes(out)
@@ -58,7 +60,17 @@ def gen(seed, run, sub="direct", tier="quick"):
     fr = r.choice([0, 0, 1, 2, 3, 7, 64, 255])
     draws = {"cut": [r.choice([fr, fr, 0.5, 0]) for _ in range(24)] if fr else [],
              "spurious": [1 if r.random() < 0.15 else 0 for _ in range(16)] if r.random() < 0.4 else []}
+    second = []
+    if sub == "direct" and end == "eof" and r.random() < 0.15:
+        s2 = gen_stream(r, False)[:600]
+        t2, pos2 = 0.0, 0
+        while pos2 < len(s2):
+            sz = r.randint(1, 256)
+            t2 += r.choice([0, 0.001, 0.1, 0.3])
+            second.append([round(t2, 6), s2[pos2:pos2 + sz].hex()])
+            pos2 += sz
     return {
+        "second": second,
         "lane": "c17", "sub": sub, "arrivals": arrivals, "end": end, "end_at": round(t, 6),
         "draws": draws, "cfg": {"greeting": ""}, "max_steps": 400000,
         "sched": common.gen_sched(r, "%s/%s/c17" % (seed, run), est_steps=2000,
@@ -87,6 +99,7 @@ def execute(scn, guide=None, keep=False):
         d = dev.Device("10.0.0.5:8080")
         d.connect()
         sock = env["port"]
+        state["sock1"] = sock
         schedule(sock)
         cap = 8 * (len(scn["arrivals"]) + stream.count(b"\n") + 8) + 4000
         while res["calls"] < cap:
@@ -111,6 +124,30 @@ def execute(scn, guide=None, keep=False):
                 k.ev("readline", len(line))
         res["conn_after"] = d.is_connected
         d.disconnect()
+        if scn.get("second") and res["eof"]:
+            # the same Device object is connected again and reads a second stream
+            d.connect()
+            sock2 = env["port"]
+            base = k.now
+            for (t, h) in scn["second"]:
+                k.at(base + t, sock2.deliver, bytes.fromhex(h))
+            k.at(base + (scn["second"][-1][0] if scn["second"] else 0) + 0.3, sock2.peer_close)
+            got2, calls2 = [], 0
+            while calls2 < 6000:
+                calls2 += 1
+                try:
+                    line = d.readline()
+                except dev.DeviceError:
+                    break
+                if line is dev.READ_EOF:
+                    res["eof2"] = True
+                    break
+                if line != b"":
+                    got2.append(line)
+            res["second"] = b"".join(got2)
+            res["second_lines"] = got2
+            d.disconnect()
+            k.probe("c17.second_stream_same_device")
         state["done"] = True
 
     def main_core():
@@ -135,7 +172,7 @@ def execute(scn, guide=None, keep=False):
     env["fw"].dead = True
     env["fw"].attach = lambda port: None
     k.run(main_core if core else main_direct)
-    sock = env.get("port")
+    sock = state.get("sock1") or env.get("port")
     viol = check(scn, k, res, stream, sock, state, core)
     extra = {"info": {"bytes": len(stream), "lines": stream.count(b"\n"), "calls": res["calls"],
                       "empties": res["empties"], "results": len(res["results"])}}
@@ -215,6 +252,14 @@ def check(scn, k, res, stream, sock, state, core):
         else:
             if not (res["err"] or res["eof"]):
                 V("no-error-after-reset", calls=res["calls"])
+        if scn.get("second") and res["eof"]:
+            want2 = b"".join(bytes.fromhex(h) for _, h in scn["second"])
+            if res.get("second") != want2 or not res.get("eof2"):
+                V("second-stream", got_len=len(res.get("second") or b""), want_len=len(want2), eof=res.get("eof2"))
+            for i, l in enumerate(res.get("second_lines", [])[:-1]):
+                if l.count(b"\n") != 1 or not l.endswith(b"\n"):
+                    V("second-stream-shape", index=i)
+                    break
         # bounded progress
         bound = 4 * (len(scn["arrivals"]) + stream.count(b"\n") + k.probes.get("sock.no_data", 0)
                      + k.probes.get("sock.short_read", 0)) + 16
